@@ -152,6 +152,11 @@ def run(ctx):
                 for opt in ([], ["-Dsighash,signing,segwit,taproot"]):
                     tj.append((list(opt) + ["--tx=" + txh, "--txin=" + inh], mode, "\n" if mode[2] == "stdin" else "", {}))
                     tl.append("SPEND %s %s -1 %d 0 - 0" % (txh.encode().hex(), inh.encode().hex(), R.STD))
+    # no outputs at all: SIGHASH_SINGLE has nothing to point at (a script-level failure, reported as such)
+    for kind in S.KINDS:
+        for ht in (3, 0x83, 1):
+            sp0 = S.build(rnd, kind, {"hashtype": ht, "n_out": 0, "n_in": 1, "idx": 0})
+            pairs.append((P.ser_tx(sp0.tx).hex(), P.ser_tx(sp0.txin).hex()))
     # two scripts in one run (a scriptSig with operations of its own, then the scriptPubKey): the limits are per script
     for (k, n) in ((1, 201), (20, 190), (1, 200), (0, 201), (2, 202), (201, 201)):
         tx_, ftx_ = S.custom(rnd, bytes([0x61]) * n, bytes([0x51]) + bytes([0x61]) * k)
